@@ -1,6 +1,6 @@
 //! C13 — bus: gap-free streams for every output, backlog holds only what laggards need.
 //!
-//! Actors: up to six live `Output` consumers, an attach/drop operator, a probe source.  The seeded
+//! Actors: up to sixteen live `Output` consumers, an attach/drop operator, a probe source.  The seeded
 //! scheduler decides who acts at every step under one of several policies; the oracle is a
 //! single-copy log with one cursor per output, checked after every operation (including the
 //! backlog length through the `rustaudio_dasp_verif` hook).
@@ -12,7 +12,7 @@ use simcore::{check_eq, Observer, Op, OpSpec, Rng, Scenario, Source, Violation};
 
 pub struct BusScenario;
 
-const SLOTS: usize = 6;
+const SLOTS: usize = 16;
 
 const O_SEND: u8 = 0;
 const O_NEXT: u8 = 1;
@@ -45,6 +45,7 @@ const P_SIX_LIVE: usize = 1;
 const P_ALL_CAUGHT_UP_3: usize = 2;
 const P_LAG_SPREAD_3: usize = 3;
 const P_POP_FRONT_BY_LAGGARD: usize = 4;
+const P_TWELVE_LIVE: usize = 5;
 
 struct Model {
     cursors: [Option<u64>; SLOTS],
@@ -213,10 +214,11 @@ fn drive<F: TagFrame>(src: &mut Source, obs: &mut Observer) -> Result<(), Violat
         policy: src.cfg("policy", 0, 4, |r| r.range(0, 4)),
         steps: src.cfg("steps", 0, 3000, |r| if r.chance(1, 50) { r.range(800, 3000) } else { r.range(1, 160) }) as usize,
         done: 0,
-        max_out: src.cfg("max_outputs", 1, SLOTS as i64, |r| match r.below(4) {
-            0 => 1,
-            1 => 2,
-            _ => r.range(1, SLOTS as i64),
+        max_out: src.cfg("max_outputs", 1, SLOTS as i64, |r| match r.below(12) {
+            0..=2 => 1,
+            3..=5 => 2,
+            6 => r.range(7, SLOTS as i64),
+            _ => r.range(1, 6),
         }) as usize,
         allow_drop_bus: src.cfg("allow_drop_bus", 0, 1, |r| r.chance(1, 5) as i64) == 1,
         rr: 0,
@@ -367,8 +369,11 @@ fn drive<F: TagFrame>(src: &mut Source, obs: &mut Observer) -> Result<(), Violat
         if m.backlog() >= 8 {
             obs.probe(P_BACKLOG_8);
         }
-        if live_n == SLOTS {
+        if live_n >= 6 {
             obs.probe(P_SIX_LIVE);
+        }
+        if live_n >= 12 {
+            obs.probe(P_TWELVE_LIVE);
         }
         if live_n >= 3 && m.backlog() == 0 && m.pulled > 0 {
             obs.probe(P_ALL_CAUGHT_UP_3);
@@ -412,10 +417,11 @@ impl Scenario for BusScenario {
     fn probes(&self) -> &'static [&'static str] {
         &[
             "backlog >= 8",
-            "six live outputs",
+            ">= 6 live outputs",
             ">= 3 live outputs all caught up",
             ">= 3 distinct lags at once",
             "laggard that alone needed the front frame read it (front pop path)",
+            ">= 12 live outputs (two-level BTreeMap)",
         ]
     }
     fn rule(&self) -> &'static str {
